@@ -166,8 +166,20 @@ def unit_texts(a):
     return stats
 
 
+def one_line_sources():
+    out = []
+    for n in [0, 1, 2, 10, 100, 200, 254, 255, 256, 257, 300, 1000, 4094, 4095, 4096, 4097, 5000, 70000]:
+        for pat in ("x" * n, "Feature: " + "x" * n, "a/" * (n // 2), "\u00e9" * n, "dir/" + "x" * n + ".feature", "/" + "y" * n, "Given " + "z" * n + "\\"):
+            out.append(pat)
+    out += ["Feature: Import a .feature", "features/login.feature", "features/login.feature.md", "x.FEATURE", " .feature", "Scenario: see docs/readme.md", "~", "~/x.feature", "C:\\x\\y.feature",
+            "file:///tmp/x.feature", "..", "...", "./", "//", "a\\b", "*", "?", "[", "[a-z].feature", "$HOME", "%TEMP%", "con", "nul", "-", "--help", "\\\\server\\share"]
+    return out
+
+
 def unit_corpus(a):
     stats = Stats()
+    # sources without any line feed (a guess "is this a path?" must never turn into an escaping OS error)
+    sweep(stats, [{"sub": "text", "text": t, "label": "one-line-source"} for t in one_line_sources()], check_text, stop_after=3)
     sweep(stats, [{"sub": "text", "text": t, "label": "corpus"} for n, t in noisy.corpus_texts()], check_text)
     return stats
 
